@@ -39,6 +39,13 @@ def run(tier, seed, replay=None):
             p = g.lifetime_keys_plan()
         else:
             p = g.basic(nfam=rng.choice([1, 1, 2]))
+            if rng.random() < 0.5:
+                # a redundant second statement of a dispatch bound without its binding, on one or two members: its placement
+                # (inline / where, before / after the binding) is one more thing the placement variants move
+                ms = [(f_, m_) for f_ in p.families for m_ in f_.members if m_.custom_bounds is None and any(x is not None for x in m_.row)]
+                for f_, m_ in rng.sample(ms, min(len(ms), rng.choice([1, 2]))):
+                    kis = [ki for ki, x in enumerate(m_.row) if x is not None]
+                    m_.redundant = {rng.choice(kis): (rng.random() < 0.5, rng.random() < 0.5)}
         bases.append(p)
     allv, owner = [], []
     for bi, b in enumerate(bases):
